@@ -131,6 +131,29 @@ void ArgumentContainer::checkArgMix( const string& ownName,
 
 
 
+/// Checks that the given key does not collide with the key of an argument
+/// stored in this container.
+///
+/// @param[in]  key  The key to check.
+/// @throw  std::invalid_argument if the key is used already.
+void ArgumentContainer::checkKeyFree( const ArgumentKey& key) const
+{
+
+   for (auto const& argi : mArguments)
+   {
+      if (argi.key() == key)
+         throw invalid_argument( "argument with key '" + format::toString( key)
+                                 + "' stored already");
+      if (argi.key().mismatch( key))
+         throw invalid_argument( "argument with key '" + format::toString( key)
+                                 + "' conflicts with stored entry '"
+                                 + format::toString( argi.key()));
+   } // end for
+
+} // ArgumentContainer::checkKeyFree
+
+
+
 /// Searches if this short or long argument is defined.<br>
 /// If a long argument name was used, also search for partial matches.
 /// @param[in]  key  The short and/or long argument name to check.
